@@ -1109,6 +1109,33 @@ where
         edge: &EdgeOfFunc<'id, Self>,
         literal_set: &EdgeOfFunc<'id, Self>,
     ) -> AllocResult<EdgeOfFunc<'id, Self>> {
+        /// Remove all literals above level `until` from `set`
+        ///
+        /// Unlike `set_pop()`, this also works for negative literals: the
+        /// remainder of the set is the child that is not ⊥.
+        #[inline] // tail-recursive
+        fn literal_set_pop<'a, M: Manager<Terminal = BDDTerminal>>(
+            manager: &'a M,
+            set: Borrowed<'a, M::Edge>,
+            until: LevelNo,
+        ) -> Borrowed<'a, M::Edge>
+        where
+            M::InnerNode: HasLevel,
+        {
+            match manager.get_node(&set) {
+                Node::Inner(node) if node.level() < until => {
+                    let (t, e) = collect_children(node);
+                    let rest = if manager.get_node(&t).is_terminal(&BDDTerminal::False) {
+                        e
+                    } else {
+                        t
+                    };
+                    literal_set_pop(manager, rest, until)
+                }
+                _ => set,
+            }
+        }
+
         fn inner<M: Manager<Terminal = BDDTerminal>>(
             manager: &M,
             edge: Borrowed<M::Edge>,
@@ -1122,7 +1149,7 @@ where
             };
             let level = node.level();
 
-            let literal_set = crate::set_pop(manager, literal_set, level);
+            let literal_set = literal_set_pop(manager, literal_set, level);
             let (literal_set, c) = match manager.get_node(&literal_set) {
                 Node::Inner(node) if node.level() == level => {
                     let (t, e) = collect_children(node);
